@@ -253,6 +253,8 @@ static void wlThen() {
   int regPhase = (int)pick(3); // 0 register early, 1 after some work, 2 after the antecedent is surely ready
   int schedKind = (int)pick(3); // 0 pool 1 immediate 2 CTS
   bool asyncPol = chance(1, 2);
+  bool notDeferred = chance(1, 2);
+  sim_note("notdeferred", notDeferred);
   sim_note("pool", nThreads);
   sim_note("chain", chainLen);
   sim_note("phase", regPhase);
@@ -290,8 +292,10 @@ static void wlThen() {
       return ante.get() + 1;
     };
     auto pol = asyncPol ? std::launch::async : dispenso::kNotAsync;
-    dispenso::Future<int> next = schedKind == 0 ? cur.then(cont, pool, pol)
-                                                : (schedKind == 1 ? cur.then(cont, imm, pol) : cur.then(cont, cts, pol));
+    // a not-deferred continuation must still not run before its antecedent when somebody waits on it early
+    auto dpol = notDeferred ? dispenso::kNotDeferred : std::launch::deferred;
+    dispenso::Future<int> next = schedKind == 0 ? cur.then(cont, pool, pol, dpol)
+                                                : (schedKind == 1 ? cur.then(cont, imm, pol, dpol) : cur.then(cont, cts, pol, dpol));
     all.push_back(next);
     cur = next;
     if (chance(1, 3))
